@@ -179,6 +179,14 @@ Definition cur_checkpoint (a : arena) : nat * nat * nat :=
   | g :: _ => (ag_nodes g, ag_values g, ag_entries g)
   end.
 
+(** The generation tag of the root is the number of the current generation (checked by the
+    extracted runner before every [new_generation]; assumed by [ArenaCow.as_exec]). *)
+Definition root_tag_ok (a : arena) : bool :=
+  match cur_root a with
+  | Some r => Nat.eqb (an_gen (node_at a r)) (length (a_gens a) - 1)
+  | None => true
+  end.
+
 (** * Entries *)
 
 Definition a_with_entry (a : arena) (e : nat) : option value :=
